@@ -14,7 +14,7 @@ from ..model import unparse
 from ..normalize import expanded, single_assignments
 
 _flat_names = ("Data", "Groups", "Objects")
-_pure_calls = ("isinstance", "hasattr", "getattr", "type")
+_pure_calls = ("isinstance", "hasattr", "getattr", "type", "bool")
 
 
 def _falsy_literal(e) -> bool:
@@ -22,8 +22,8 @@ def _falsy_literal(e) -> bool:
 
 
 class _Bools(ast.NodeTransformer):
-    """Spellings of a truth test reduced to the tested expression: `X is False` / `X == False` / `X is not True` -> `not X`;
-    `X is True` -> `X`;  `bool(X)` -> `X`;  `len(X) > 0`, `len(X) != 0`, `len(X) >= 1` -> `X`;  `len(X) == 0` -> `not X`;
+    """Spellings of a truth test reduced to the tested expression: `X == False` / `X != True` -> `not X`;  `X == True` -> `X`;
+    `bool(X)` -> `X`;  `len(X) > 0`, `len(X) != 0`, `len(X) >= 1` -> `X`;  `len(X) == 0` -> `not X`;
     `X or []` -> `X`."""
 
     def visit_Call(self, n):
@@ -48,8 +48,10 @@ class _Bools(ast.NodeTransformer):
             return n
         op, rhs = n.ops[0], n.comparators[0]
         if isinstance(rhs, ast.Constant) and isinstance(rhs.value, bool):
-            positive = isinstance(op, (ast.Is, ast.Eq))
-            if not positive and not isinstance(op, (ast.IsNot, ast.NotEq)):
+            # equality only: `X is False` is NOT a truth test (a flag read back from a file is numpy.int8(0), which is falsy and equal
+            # to False but not identical to it), so identity comparisons stay what they are: undecided
+            positive = isinstance(op, ast.Eq)
+            if not positive and not isinstance(op, ast.NotEq):
                 return n
             if positive == rhs.value:
                 return n.left
